@@ -16,6 +16,7 @@ import (
 	"encoding/json"
 	"fmt"
 	"os"
+	"sync/atomic"
 	"time"
 
 	"verifharness/vlib"
@@ -42,6 +43,13 @@ type repRecord struct {
 	Metrics []metricRow
 }
 
+// childWatchdog is generous against the observed maxima (a child takes <= 45 s
+// on an idle machine, a few minutes on a heavily loaded one); its firing is
+// inconclusive, and after two of them no further children are launched.
+const childWatchdog = 6 * time.Minute
+
+var watchdogsFired atomic.Int64
+
 func execRun(bins *binaries, scratch string, job childJob) runRecord {
 	rr := runRecord{Job: job}
 	if job.Run.Race {
@@ -50,7 +58,7 @@ func execRun(bins *binaries, scratch string, job childJob) runRecord {
 			return rr
 		}
 	}
-	out := runJob(bins, scratch, job, 20*time.Minute)
+	out := runJob(bins, scratch, job, childWatchdog)
 	rr.Out = out
 	rr.Dur = out.Dur.Seconds()
 	notes := absorbNotes(out.RecPath)
@@ -59,9 +67,15 @@ func execRun(bins *binaries, scratch string, job childJob) runRecord {
 	}
 	if out.TimedOut {
 		rr.Fail = "watchdog"
+		watchdogsFired.Add(1)
 		return rr
 	}
+	stalledNote, stalled := notes["stalled"]
 	rv, ok := notes["result"]
+	if !ok && stalled {
+		rr.Fail = "stalled: " + tailStr(string(stalledNote), 6000)
+		return rr
+	}
 	if !ok {
 		rr.Fail = "crash: " + tailStr(vlib.Tail(out.OutPath, 1500), 1500)
 		return rr
@@ -85,6 +99,10 @@ func execRun(bins *binaries, scratch string, job childJob) runRecord {
 	}
 	for k := 1; k < job.Run.Reps; k++ {
 		rv, ok := notes[fmt.Sprintf("rep%d", k)]
+		if !ok && stalled {
+			rr.RepFail = fmt.Sprintf("stalled: repetition %d: %s", k+1, tailStr(string(stalledNote), 6000))
+			break
+		}
 		if !ok {
 			rr.RepFail = fmt.Sprintf("repetition %d ended without a record: %s", k+1, tailStr(vlib.Tail(out.OutPath, 1500), 1500))
 			break
